@@ -251,7 +251,7 @@ pub fn run_config(cfg: &Config, seed: u64, steps: usize, trace: &mut String, obs
     let _ = exchange(&mut s, &set, 0xdd00_0001, Duration::from_secs(5));
     let get = Req::new(op::GET).key(b"ttlprobe").opaque(7).bytes();
     let mut early_hit = false;
-    while t0.elapsed() < Duration::from_millis(1500) {
+    while t0.elapsed() < Duration::from_millis(800) {
         let (r, _) = exchange(&mut s, &get, 0xdd00_0002, Duration::from_secs(5));
         early_hit = r.first().map(|x| parse_resp(x).map(|(f, _)| f.status == 0).unwrap_or(false)).unwrap_or(false);
         if !early_hit {
@@ -259,22 +259,29 @@ pub fn run_config(cfg: &Config, seed: u64, steps: usize, trace: &mut String, obs
         }
         std::thread::sleep(Duration::from_millis(300));
     }
-    // the whole server is suspended for 1.7 s in between (a stopped process, a paused VM):
-    // expiry follows real elapsed seconds all the same, the clock catches up when it resumes
+    // the whole server is then suspended for 4.2 s (a stopped process, a paused VM): expiry
+    // follows real elapsed seconds all the same — the clock catches up when it resumes, so
+    // 5.3 s after the store an item with TTL 3 is gone (a clock that drops the ticks it
+    // missed would still show it)
+    while t0.elapsed() < Duration::from_millis(800) {
+        std::thread::sleep(Duration::from_millis(10));
+    }
     unsafe {
         libc::kill(child.id() as i32, libc::SIGSTOP);
     }
-    std::thread::sleep(Duration::from_millis(1700));
+    while t0.elapsed() < Duration::from_millis(5000) {
+        std::thread::sleep(Duration::from_millis(50));
+    }
     unsafe {
         libc::kill(child.id() as i32, libc::SIGCONT);
     }
-    while t0.elapsed() < Duration::from_millis(4300) {
-        std::thread::sleep(Duration::from_millis(100));
+    while t0.elapsed() < Duration::from_millis(5300) {
+        std::thread::sleep(Duration::from_millis(20));
     }
     let (r, _) = exchange(&mut s, &get, 0xdd00_0003, Duration::from_secs(5));
     let late_miss = r.first().map(|x| parse_resp(x).map(|(f, _)| f.status == 1).unwrap_or(false)).unwrap_or(false);
     let _ = writeln!(trace, "TTLPROBE");
-    let _ = writeln!(obs, "TTL live-before-1.5s={} gone-after-4.3s={}", early_hit as u8, late_miss as u8);
+    let _ = writeln!(obs, "TTL live-before-0.8s={} gone-after-5.3s-despite-a-4.2s-stall={}", early_hit as u8, late_miss as u8);
     let _ = child.kill();
     let _ = child.wait();
     true
